@@ -13,7 +13,7 @@ CLAIMS = {
              'selector applied, no exception; n_samples / shape / n_parts / n_chunks / duration equal those of the concatenation; _get_subitems for an increasing index list/array: one piece per part touched, parts '
              'in increasing order, each piece the increasing in-part offsets of exactly the requested rows of that part (none lost, none invented); __getitem__ with an increasing index array, alone or followed by a '
              'channel selector: as many rows as requested, row r is row item[r] of the concatenation with the deferred operators (and the selector) applied - via a ghost trace of the rows read through the backend and the '
-             'Lean-checked lemma L1 (increasing with the same members = equal). BOUNDED only (not proved): unsorted / repeated / negative index lists, constructors and dispatch, '
+             'Lean-checked lemma L1 (increasing with the same members = equal); _get_part_bounds (0 followed by the running totals of the files\' row counts). BOUNDED only (not proved): unsorted / repeated / negative index lists, constructors and dispatch, '
              'real backends (flat/npy/array/cbin files, dtypes, header offsets) against np.concatenate.',
         note='Assumed: np.searchsorted contract; backends _get_part return the rows of their part (validated by the bounded stand-in on real files); rows are opaque values and operators act row-wise '
              '(NumPy facts E1-E3); np.vstack = concatenation of blocks; Python subset semantics; generic fold prefix lemma.',
